@@ -1,2 +1,4 @@
 import GotranxProofs.Exec
 import GotranxProofs.Validate
+import GotranxProofs.Pins
+import GotranxProofs.Properties.C01
